@@ -179,6 +179,12 @@ func (c *updater) setAuthExternal(config ConfigValueGetter, auth *hatypes.AuthEx
 			c.logger.Warn("skipping auth-url on %s: a globally configured auth-url is missing the namespace", url.Source.String())
 			return
 		}
+		if url.Source != nil && namespace != url.Source.Namespace && !c.options.DynamicConfig.CrossNamespaceServices {
+			// the backend might exist due to an ingress or service of its own namespace
+			c.logger.Warn("skipping auth-url on %s: trying to read service '%s/%s' cross namespaces '%s' and '%s', but cross-namespace reading is disabled",
+				url.Source.String(), namespace, name, namespace, url.Source.Namespace)
+			return
+		}
 		backend = c.haproxy.Backends().FindBackend(namespace, name, urlPort)
 		if backend == nil {
 			// warn was already logged in the ingress if a service couldn't be found,
@@ -718,6 +724,7 @@ func (c *updater) buildBackendOAuth(d *backData) {
 
 		// starting here the auth backend should be configured or requests should be denied
 		// AlwaysDeny will be changed to false if the configuration succeed
+		authURLDeny := path.AuthExternal.AlwaysDeny
 		path.AuthExternal.AlwaysDeny = true
 
 		if oauth.Value != "oauth2_proxy" && oauth.Value != "oauth2-proxy" {
@@ -729,9 +736,11 @@ func (c *updater) buildBackendOAuth(d *backData) {
 			c.logger.Warn("oauth2_proxy on %v needs Lua json module, install lua-json4 and enable 'external-has-lua' global config", oauth.Source)
 			continue
 		}
-		if authURL := d.mapper.Get(ingtypes.BackAuthURL); authURL.Value != "" {
+		if authURL := config.Get(ingtypes.BackAuthURL); authURL.Value != "" {
+			// auth-url of this very path has precedence and was already evaluated,
+			// so its verdict is preserved: deny unless it was properly configured
 			c.logger.Warn("ignoring oauth configuration on %v: auth-url was configured and has precedence", authURL.Source)
-			path.AuthExternal.AlwaysDeny = false
+			path.AuthExternal.AlwaysDeny = authURLDeny
 			continue
 		}
 		uriPrefix := "/oauth2"
